@@ -16,8 +16,8 @@ RULE = ("tree pairs (C01's generators, biased to containers of different sizes s
         "has at least one compound edit with >= 2 sub-edits; distinct = distinct case")
 ASSUMPTIONS = ["cost(e) = e.bounds() once e.tighten_bounds() returns False (must be a single value)",
                "whether the cost is minimal is not judged"]
-MINIMUMS = {"quick": {"views_compared": 8000, "levels_summed": 15000},
-            "thorough": {"views_compared": 100000, "levels_summed": 300000}}
+MINIMUMS = {"quick": {"diff_tree_costs_after_rendering": 4000, "views_compared": 8000, "levels_summed": 15000},
+            "thorough": {"diff_tree_costs_after_rendering": 50000, "views_compared": 100000, "levels_summed": 300000}}
 
 
 def plan(tier, seed):
@@ -102,6 +102,43 @@ def check(case, ctx):
         if v1 is not None and not (v1 == v2 == v3):
             diags.append({"kind": "views-disagree", "top_level_edit": v1, "diff_tree_edited_cost": v2, "sum_get_all_edits": v3,
                           "edit": type(e).__name__})
+        # V5: the diff tree again, asked for its cost *after it has been rendered* (rendering refines nested edits directly, below
+        # the edit that holds them), and the per-level sums of the edits the rendered tree carries
+        if v1 is not None and case["family"] in ("json", "xml", "csv", "plist", "file"):
+            import io
+            import graphtage.printer as gp
+            from gv.props.c05 import _formatter
+            ta5, tb5 = families.build(case)
+            d5 = ta5.diff(tb5)
+            rendered = True
+            try:
+                with gp.Printer(out_stream=io.StringIO(), ansi_color=False, quiet=True) as p5:
+                    _formatter(case["family"]).print(p5, d5)
+            except core.Budget:
+                raise
+            except Exception:  # noqa  (rendering errors are C13's)
+                rendered = False
+            if rendered:
+                v5 = d5.edited_cost()
+                if ctx is not None:
+                    ctx.count("diff_tree_costs_after_rendering")
+                if v5 != v1:
+                    diags.append({"kind": "views-disagree", "top_level_edit": v1, "diff_tree_edited_cost_after_rendering": v5,
+                                  "edit": type(e).__name__})
+                else:
+                    for top in getattr(d5, "edit_list", None) or []:
+                        for x in monitors.walk_script(top):
+                            subs = monitors.sub_edits(x)
+                            if subs is None:
+                                continue
+                            bx = x.bounds()
+                            parts = [s.bounds() for s in subs]
+                            if all(p_.definitive() for p_ in parts) and (not bx.definitive() or bx.upper_bound != sum(p_.upper_bound for p_ in parts)):
+                                diags.append({"kind": "level-sum-mismatch", "edit": type(x).__name__, "cost": str(bx), "after_rendering": True,
+                                              "sum_of_parts": sum(p_.upper_bound for p_ in parts), "detail": _multiset_detail(x)})
+                                break
+                        if diags:
+                            break
         if ctx is not None:
             ctx.count("views_compared")
             ctx.count("levels_summed", levels)
